@@ -506,7 +506,38 @@ func ruleLexClass(p *Prog, r *Report) {
 	if fn := p.MustFunc(r, "sml", "(*lexer).emitSpaceRemoved"); fn != nil {
 		key := rule + ":size-token:sml.emitSpaceRemoved"
 		sites := stringRangeSites(fn)
-		if len(sites) != 1 {
+		// by evaluation first: the emitter applied to each character of the
+		// size scanner's alphabet alone, and to a whole size declaration
+		evaluated := true
+		var wrong []string
+		for _, c := range []rune{' ', '\t', '\r', '\n', '0', '5', '9', '.', '[', ']'} {
+			res, ok := lexRunFrom(p, fn, string(c), 0, 1, "", int64Val(11))
+			if !ok || len(res.toks) != 1 {
+				evaluated = false
+				break
+			}
+			switch got := res.toks[0].val; {
+			case wsSpec[c] && got != "":
+				wrong = append(wrong, fmt.Sprintf("%#U is kept in the size token although the size scanner accepts it as white space", c))
+			case !wsSpec[c] && got != string(c):
+				wrong = append(wrong, fmt.Sprintf("%#U is removed from the size token", c))
+			}
+		}
+		if evaluated {
+			decl := "[ 12 ..\t7\r\n]"
+			if res, ok := lexRunFrom(p, fn, decl, 0, len(decl), "", int64Val(11)); !ok || len(res.toks) != 1 {
+				evaluated = false
+			} else if res.toks[0].val != "[12..7]" {
+				wrong = append(wrong, fmt.Sprintf("the size declaration %q is emitted as %q, expected %q", decl, res.toks[0].val, "[12..7]"))
+			}
+		}
+		if evaluated {
+			if len(wrong) > 0 {
+				r.bad(rule, key, p.Pos(fn.Pos()), strings.Join(wrong, "; "))
+			} else {
+				r.ok(rule, key, p.Pos(fn.Pos()), "evaluated on every character of the size alphabet: space, tab, CR and LF are removed from a size token; digits, dots and brackets are kept, in order")
+			}
+		} else if len(sites) != 1 {
 			r.unk(rule, key, p.Pos(fn.Pos()), "emitSpaceRemoved does not filter its token rune by rune: which characters it removes cannot be determined")
 		} else {
 			site := sites[0]
@@ -596,6 +627,33 @@ func ruleLexClass(p *Prog, r *Report) {
 		key2 := rule + ":comment-return:sml.lexComment"
 		okRet := true
 		nret := 0
+		// by evaluation first: from whichever state the comment interrupted,
+		// that state is resumed; at the end of the input lexEOF takes over
+		evalOK, evalBad := true, []string{}
+		for _, last := range []string{"lexMessageHeader", "lexMessageText"} {
+			for _, text := range []string{"// c \nX", "//\nX", "// a // b\r\nX"} {
+				res, ok := lexRun(p, fn, text, 0, last)
+				if !ok {
+					evalOK = false
+					break
+				}
+				if res.next != last {
+					evalBad = append(evalBad, fmt.Sprintf("after the comment %q interrupting %s the lexer continues in %q", text, last, res.next))
+				}
+			}
+			if res, ok := lexRun(p, fn, "// c", 0, last); !ok {
+				evalOK = false
+			} else if res.next != "lexEOF" {
+				evalBad = append(evalBad, fmt.Sprintf("after a comment that ends the input the lexer continues in %q, expected lexEOF", res.next))
+			}
+		}
+		if evalOK {
+			if len(evalBad) > 0 {
+				r.bad(rule, key2, p.Pos(fn.Pos()), strings.Join(uniq(evalBad), "; "))
+			} else {
+				r.ok(rule, key2, p.Pos(fn.Pos()), "evaluated for both interruptible states: lexComment resumes the state it interrupted, or lexEOF when the comment ends the input")
+			}
+		}
 		for _, b := range fn.Blocks {
 			ret, ok := b.Instrs[len(b.Instrs)-1].(*ssa.Return)
 			if !ok {
@@ -615,7 +673,9 @@ func ruleLexClass(p *Prog, r *Report) {
 				okRet = false
 			}
 		}
-		if okRet && nret > 0 {
+		if evalOK {
+			// decided above
+		} else if okRet && nret > 0 {
 			r.ok(rule, key2, p.Pos(fn.Pos()), "lexComment returns lastState (or lexEOF at the end of input)")
 		} else {
 			r.bad(rule, key2, p.Pos(fn.Pos()), "lexComment does not return to the interrupted state (l.lastState) on every path")
